@@ -1,5 +1,6 @@
 pub mod driver;
 pub mod gen;
 pub mod model;
+pub mod phon;
 pub mod props;
 pub mod runner;
